@@ -1342,7 +1342,9 @@ class C02(HistoryCheck):
         k = dict(ALL_KNOBS)
         k.update(cycle=rng.choice([0.0, 0.5, 1.0]), imp=rng.choice([0.0, 0.3]), quad=rng.choice([0.0, 0.4]),
                  scaling=rng.choice([0.0, 0.0, 0.4]), neg_scaling=True, res_ref=True,
-                 mf=rng.choice([0.0, 0.0, 0.2]), nl=['nlbgs', 'newton', 'nlbj', 'broyden'])
+                 mf=rng.choice([0.0, 0.0, 0.2]), nl=['nlbgs', 'newton', 'nlbj', 'broyden'],
+                 rhs_checking=0.75,      # the reverse-mode right-hand-side cache is a fwd/rev asymmetry of its own
+                 sub_ln=rng.choice([0.0, 0.6]))
         return k
 
     def run_knobs(self, rng, world):
